@@ -80,8 +80,8 @@ Proof. eexists. split; [vm_compute; reflexivity|]. split; [reflexivity|]. eexist
     of result columns and, column by column, on the name (row_rel: equal names,
     or the reference row has no name for an un-aliased expression).
     The statements covered ("simple SELECT"): SELECT <targets> FROM <base
-    tables, each with or without alias> [WHERE / GROUP BY / HAVING / ORDER BY]
-    with no WITH clause, no join, no sub-select; every target a star (bare or qualified by a
+    tables, each with or without alias, separated by commas or combined by JOIN> [WHERE / GROUP BY / HAVING / ORDER BY]
+    with no WITH clause and no sub-select; every target a star (bare or qualified by a
     relation name), a column reference (c or t.c, with or without AS) or an expression
     that is not a column reference, CASE, COALESCE, sub-select or cast
     ([target_ok]).  [strict] / [deep] select how much the reference semantics
@@ -104,11 +104,11 @@ Theorem C02_level_refines_partial : forall e sc tables targets,
 Proof. exact level_refines. Qed.
 Print Assumptions C02_level_refines_partial.
 
-Theorem C02_simple_select_partial : forall (e : env) (strict deep : bool) (stmt : node) (targets rvs : list node),
+Theorem C02_simple_select_partial : forall (e : env) (strict deep : bool) (stmt : node) (targets rvs fitems : list node) (leavess : list (list node)) (f : nat),
   kind_of stmt = "SelectStmt" -> kid "WithClause" stmt = Nil ->
   kid "TargetList" stmt = NList targets -> targets <> [] ->
-  kid "FromClause" stmt = NList rvs -> from_items (kid "FromClause" stmt) = rvs ->
-  Forall (fun rv => kind_of rv = "RangeVar") rvs ->
+  kid "FromClause" stmt = NList fitems -> Forall2 (join_tree (S f)) fitems leavess -> rvs = List.concat leavess ->
+  from_items (kid "FromClause" stmt) = rvs ->
   (if strict then level_refs (NList [kid "FromClause" stmt; kid "WhereClause" stmt; kid "GroupClause" stmt;
                                      kid "HavingClause" stmt; kid "SortClause" stmt])
    else paired_refs (NList [kid "FromClause" stmt; kid "WhereClause" stmt; kid "GroupClause" stmt;
@@ -119,16 +119,16 @@ Theorem C02_simple_select_partial : forall (e : env) (strict deep : bool) (stmt 
   NoDup (map visible_name rvs) ->
   (forall sc, spec_scope (env_cat e) rvs = POk sc ->
      Forall (fun it => NoDup (map sc_name (si_cols it))) sc /\ Forall (target_ok sc) targets) ->
-  forall f g,
+  forall g,
   match describe (env_cat e) strict deep (S (S f)) [] [] stmt, output_columns (S g) e [] stmt with
   | POk row, Ok cols => List.length row = List.length cols /\ Forall2 row_rel row cols
   | PErr _, Err _ => True
   | _, _ => False
   end.
 Proof.
-  intros e strict deep stmt targets rvs H1 H2 H3 H4 H5 H6 H7 H8 H9 H10 H11 H12 f g.
-  pose proof (simple_select_refines_t e strict deep stmt targets rvs H1 H2 H3 H4 H5 H6 H7 H8 H9 H10 H11 H12 f g) as Ht.
-  pose proof (simple_select_arity e strict deep stmt targets rvs H1 H2 H3 H4 H5 H6 H7 H8 H9 H10 H11 H12 f g) as Ha.
+  intros e strict deep stmt targets rvs fitems leavess f H1 H2 H3 H4 H5 H6 H7 H8 H9 H10 H11 H12 H13 g.
+  pose proof (simple_select_refines_t e strict deep stmt targets rvs fitems leavess f H1 H2 H3 H4 H5 H6 H7 H8 H9 H10 H11 H12 H13 g) as Ht.
+  pose proof (simple_select_arity e strict deep stmt targets rvs fitems leavess f H1 H2 H3 H4 H5 H6 H7 H8 H9 H10 H11 H12 H13 g) as Ha.
   destruct (describe (env_cat e) strict deep (S (S f)) [] [] stmt); destruct (output_columns (S g) e [] stmt); auto.
 Qed.
 Print Assumptions C02_simple_select_partial.
@@ -155,12 +155,14 @@ Example C02_simple_select_hypotheses :
   let targets := [col_target ["id"]; qstar_target "x"; count_target] in
   kind_of simple_stmt = "SelectStmt" /\ kid "WithClause" simple_stmt = Nil /\
   kid "TargetList" simple_stmt = NList targets /\ kid "FromClause" simple_stmt = NList [rv_t_as_x] /\
+  Forall2 (join_tree 1) [rv_t_as_x] [[rv_t_as_x]] /\
   from_items (kid "FromClause" simple_stmt) = [rv_t_as_x] /\
   level_refs (NList (map (kid "Val") targets)) = refs_of targets /\ direct_refs targets = refs_of targets /\
   (forall sc, spec_scope (env_cat e) [rv_t_as_x] = POk sc ->
      Forall (fun it => NoDup (map sc_name (si_cols it))) sc /\ Forall (target_ok sc) targets).
 Proof.
   cbv zeta. repeat split; try (vm_compute; reflexivity).
+  - repeat constructor.
   - vm_compute in H. inversion H; subst. repeat constructor. intros [].
   - vm_compute in H. inversion H; subst. constructor; [|constructor; [|constructor; [|constructor]]].
     + apply TO_simple. eapply ST_col; try reflexivity.
